@@ -17,6 +17,7 @@ import (
 // state constructor).
 func runC09Gaps2(c *eng.Ctx) {
 	c09g2TrackerBookkeeping(c, "C09.3")
+	c08g2Caps(c, "C09.3") // shared with C08.7: node-local trim bounds and the bound applyLog ships are capped, unconditionally
 	c09g2WritesRecorded(c)
 	c09g2RecordOperands(c)
 	c09g2BucketWriters(c)
